@@ -64,7 +64,7 @@ class Gen:
        fns: scalar functions                                cases: CASE inside expressions (not only top level)
        isnull_sel: IS [NOT] NULL outside WHERE              negpath: unary minus on a nested path
        neq: the != operator                                 ors: OR                     strs: string comparisons"""
-    DEFAULT = dict(nulls=True, nots=True, likes=False, fns=True, cases=True, isnull_sel=True, negpath=True, neq=True, ors=True, strs=True, paths=True, fn_in_case=True, negs=True, eqcols=True, plus=True, explicit_null=True)
+    DEFAULT = dict(nulls=True, nots=True, likes=False, fns=True, cases=True, isnull_sel=True, negpath=True, neq=True, ors=True, strs=True, paths=True, fn_in_case=True, negs=True, eqcols=True, plus=True, explicit_null=True, flat=False)
 
     def __init__(self, rng, **f):
         self.r = rng
@@ -133,6 +133,27 @@ class Gen:
         if r < 0.9: return {"t": "or", "a": self.pred(d - 1), "b": self.pred(d - 1)}
         if self.f["nots"]: return {"t": "not", "a": self.pred(d - 1)}
         return par(self.pred(d - 1))
+
+    def flatchain(self, n):
+        """col OP literal comparisons joined by AND / OR without parentheses (AND binds tighter): the fast-path shape"""
+        def atom():
+            if self.r.random() < 0.8:
+                return {"t": "cmp", "op": self.r.choice(self.cmpops()), "a": col(self.r.choice(NUMCOLS)), "b": num(self.r.choice([0, 1, 2, 3, 5]))}
+            return {"t": "cmp", "op": self.r.choice(["=", "!="] if self.f["neq"] else ["="]), "a": col("s"), "b": strlit(self.r.choice(["ab", "a", "xz"]))}
+        terms = [atom() for _ in range(n)]
+        ops = [self.r.choice(["and", "or"]) for _ in range(n - 1)]
+        # precedence climbing: group AND runs first
+        groups, cur = [], terms[0]
+        for t, o in zip(terms[1:], ops):
+            if o == "and":
+                cur = {"t": "and", "a": cur, "b": t}
+            else:
+                groups.append(cur); cur = t
+        groups.append(cur)
+        e = groups[0]
+        for g in groups[1:]:
+            e = {"t": "or", "a": e, "b": g}
+        return e
 
     def row(self, i):
         r = self.r
